@@ -381,6 +381,14 @@ func drawCase(t *rapid.T) Case {
 		kind = forced // development aid: concentrate a run on one operation kind
 	}
 	c.Op = genOp(t, kind, 0)
+	if c.Op.Kind == "merge" && c.Op.Sub[0].Kind == "updateID" && rapid.IntRange(0, 2).Draw(t, "concurrent") > 0 {
+		// make the remote update concurrent with a local update of the same document: the local
+		// one is the last prior operation and the remote node forks right before it
+		local := genOp(t, "updateID", 1)
+		local.Col, local.Doc = c.Op.Col, c.Op.Sub[0].Doc
+		c.Prior = append(c.Prior, local)
+		c.Op.N = 1
+	}
 	return c
 }
 
